@@ -192,6 +192,20 @@ def run(ctx):  # noqa: C901, PLR0912, PLR0915
     ph = repo.func(f'{CH}.parse_header')
     ok, why = _q_zero_excluded(ph.node)
     ctx.ob('C17.R2', 'q=0 excluded', ok, 'parse_header: ' + why, fi=ph)
+    # the weight is found for every spelling the header grammar allows (`q=0`, `q = 0`, `Q=0`): where it is parsed is not
+    # decided by comparing raw header text with a literal that fixes the characters around `=`
+    gph = cfg_of(ph)
+    lit = []
+    for n in gph.real_nodes():
+        if any(call_name(c) == 'float' for c in n.calls()):
+            for bn in gph.nodes:
+                if bn.kind == 'branch' and bn.test is not None and gph.dominates(bn, n):
+                    lit += [k.value for k in ast.walk(bn.test) if isinstance(k, ast.Constant) and isinstance(k.value, str)
+                            and '=' in k.value and k.value != '=']
+    ctx.ob('C17.R2', 'weight found for every spelling', not lit,
+           'parse_header: the weight is split off at `=` whatever white space / case surrounds it' if not lit else
+           f'parse_header: the weight is parsed only where the raw parameter text matches {lit}: `q = 0` or `Q=0` keep the '
+           f'default weight 1 and a coding the peer refused is used', fi=ph)
     src = xsrc(ph)
     ctx.ob('C17.R2', 'default quality', '= 1' in src and 'float(' in src,
            'parse_header: a coding without q-value gets quality 1, a given q-value is parsed as float', fi=ph)
@@ -229,6 +243,56 @@ def run(ctx):  # noqa: C901, PLR0912, PLR0915
                f'message is rejected' if ok else
                f'{fi.name}: decompress_payload({et}) - membership guard={bool(member)}, unsupported coding rejected='
                f'{raises}', fi=fi, node=c, witness={'facts': facts})
+    # the supported set of that guard is the one the caller configured: both public readers hand their `supported_encodings`
+    # to the membership test (directly, or as the argument of the helper that holds it) - a reader that falls back to "all
+    # codings this installation has" decompresses what the application excluded
+    def _guard_params(fi_):
+        g_ = cfg_of(fi_)
+        params_ = [a.arg for a in fi_.node.args.args]
+        out_ = set()
+        for n_ in g_.real_nodes():
+            for c_ in n_.calls():
+                if call_name(c_) != 'decompress_payload' or not c_.args:
+                    continue
+                et_ = unparse(c_.args[0])
+                for txt_, pol_ in g_.facts_at(n_).both():
+                    if pol_ is True and txt_.startswith(f'{et_} in '):
+                        cont = ast.parse(txt_.split(' in ', 1)[1], mode='eval').body
+                        la_ = local_assignments(fi_.node)
+                        names_, todo_ = set(), [cont]
+                        while todo_:
+                            e_ = todo_.pop()
+                            for x_ in ast.walk(e_):
+                                if isinstance(x_, ast.Name) and x_.id not in names_:
+                                    names_.add(x_.id)
+                                    todo_.extend(la_.get(x_.id, []))
+                        out_ |= {p_ for p_ in params_ if p_ in names_}
+        return params_, out_
+    import re
+    HR = 'sdc11073.httpserver.httpreader.HTTPReader'
+    for nm in ('read_request_body', 'read_response_body'):
+        fi = repo.func(f'{HR}.{nm}')
+        _, own = _guard_params(fi)
+        ok = 'supported_encodings' in own
+        via = None
+        if not own:
+            for c in calls_in(fi.node):
+                tgt = repo.resolve_method(HR, call_name(c) or '') if isinstance(c.func, ast.Attribute) else None
+                if tgt is None or tgt.qual == fi.qual:
+                    continue
+                hp, hg = _guard_params(tgt)
+                if not hg:
+                    continue
+                hp = [p_ for p_ in hp if p_ not in ('self', 'cls')] if tgt.node.args.args and tgt.node.args.args[0].arg in ('self', 'cls') else hp
+                bound = dict(zip(hp, c.args))
+                bound.update({k.arg: k.value for k in c.keywords if k.arg})
+                via = tgt.name
+                ok = any(isinstance(bound.get(p_), ast.Name) and bound[p_].id == 'supported_encodings' for p_ in hg)
+        ctx.ob('C17.R3', f'{nm}: the configured supported set reaches the guard', ok,
+               f'{nm}: the membership test uses the supported_encodings of the caller' if ok else
+               f'{nm}: the set that decides whether a body is decompressed does not come from the supported_encodings argument'
+               f'{" (the call of " + via + " does not pass it on)" if via else ""}: a coding the application excluded is '
+               f'decompressed all the same', fi=fi)
     # a truncated / corrupt stream must be rejected: one-shot zlib.decompress raises on an incomplete stream; a
     # streaming decompressobj does not - then .eof has to be checked
     for q in ('sdc11073.httpserver.compression.GzipCompressionHandler.decompress_payload',):
